@@ -31,6 +31,7 @@ from sympy.core.numbers import One
 import unyt.dimensions as dims
 from unyt._parsing import parse_unyt_expr
 from unyt._physical_ratios import speed_of_light_cm_per_s
+from unyt._unit_lookup_table import unit_prefixes
 from unyt.dimensions import (
     angle,
     base_dimensions,
@@ -934,10 +935,10 @@ def _get_conversion_factor(old_units, new_units, dtype):
             # offset scaling for degree Fahrenheit
             old_prefix, _ = _split_prefix(str(old_units), old_units.registry.lut)
             if old_prefix != "":
-                old_baseoffset /= old_basevalue
+                old_baseoffset /= unit_prefixes[old_prefix][0]
             new_prefix, _ = _split_prefix(str(new_units), new_units.registry.lut)
             if new_prefix != "":
-                new_baseoffset /= new_basevalue
+                new_baseoffset /= unit_prefixes[new_prefix][0]
         return ratio, ratio * old_baseoffset - new_baseoffset
 
 
